@@ -622,6 +622,7 @@ int driver_main(int argc, char** argv, Engine& e)
       alarm(60);
       Outcome o = execute_here(e, p, false);
       alarm(0);
+      if (o.st.nontrivial && !o.st.shape.empty()) o.st.state("shape", o.st.shape);
       for (auto& s : o.st.states) total.states[s.first].insert(s.second.begin(), s.second.end());
       printf("end %llu %016llx %s %s %d %d %zu %s\n", (unsigned long long)idx, (unsigned long long)o.hash,
              o.ok ? "ok" : "viol", o.ok ? "-" : o.cls.c_str(), o.step, o.st.nontrivial ? 1 : 0,
